@@ -66,6 +66,29 @@ def scenario(e, cfg, built=None):
                     f"{iface}: transformation applied {len(calls)} times for {len(got)} yielded elements",
                     dict(kind=f"{iface}-transformation-not-once"))
             got = [g[1] if isinstance(g, tuple) else g for g in got]
+        if iface == "tfdataset" and getattr(mon, "tf_dataset", None) is not None and mon.tf_dataset.source == "from_generator" \
+                and (not use_shuffle or cfg.get("second_pass_shuffled")):
+            # the SAME tf.data.Dataset object iterated again (a second epoch of model.fit): tf calls the generator function anew
+            import sedpack.io.dataset_iteration as DI
+            import sedpack.io.itertools.itertools as IT
+            restore = iterscen.patch_randomness(e, IT)
+            patches = dict(IterateShardFlatBuffer=iterscen.make_decoder(table, iterscen.Monitor()), ThreadPoolExecutor=iterscen.StubExecutor,
+                           LazyPool=iterscen.make_lazy_pool(e))
+            old = {k: getattr(DI, k) for k in patches}
+            for k, v in patches.items():
+                setattr(DI, k, v)
+            try:
+                second = list(mon.tf_dataset.run_generator())
+            except Exception as exc:  # noqa: BLE001
+                second = f"raised {type(exc).__name__}"
+            finally:
+                for k, v in old.items():
+                    setattr(DI, k, v)
+                restore()
+            e.prove(isinstance(second, list) and sorted(second) == want,
+                    f"{iface}/{cfg['layout']}/{split} shuffled={use_shuffle}: a second pass over the SAME returned dataset object yields "
+                    f"{second if not isinstance(second, list) else sorted(second)} instead of exactly {want}",
+                    dict(kind="tfdataset-second-pass-differs"))
         e.prove(sorted(got) == want,
                 f"{iface}/{cfg['layout']}/{split} shuffled={use_shuffle}: yielded {sorted(got)} instead of exactly {want} "
                 f"(missing {sorted((Counter(want) - Counter(got)).elements())}, extra {sorted((Counter(got) - Counter(want)).elements())})",
